@@ -42,7 +42,7 @@ ASSUMPTIONS = [
     'nb_missing_labels); the counting helper classification_counts, whose reads insert keys '
     '(property C13), is exercised last on a fresh evaluation and only its returned counts are judged',
 ]
-BUDGET = {'quick': {'cases': 3000, 'shards': 16, 'seconds': 120, 'shrink_s': 30},
+BUDGET = {'quick': {'cases': 12000, 'shards': 16, 'seconds': 120, 'shrink_s': 30},
           'thorough': {'cases': 200000, 'shards': 16, 'seconds': 900, 'shrink_s': 45}}
 FLOORS = {'nontrivial': 0.15, 'has-not-a-test-entry': 0.02, 'tasks-all-done': 0.15, 'tests-all-success': 0.08,
           'tests-mixed-verdicts': 0.3, 'has-missing-result': 0.3, 'bylabels-exception-expected': 0.05,
